@@ -12,7 +12,7 @@ Why(r) ==
   IF "panic" \in DOMAIN r THEN "panic"
   ELSE IF ~TwinEq(r.inst, r.plain) THEN "TwinEq"
   ELSE IF ~Silent(r.plain) THEN "PlainNotSilent"
-  ELSE IF r.mode # "accept" THEN (IF Silent(r.inst) THEN "" ELSE "Silent")
+  ELSE IF r.mode # "accept" THEN (IF ~Silent(r.inst) THEN "Silent" ELSE IF Lifecycle(r.inst) # Lifecycle(r.plain) THEN "Lifecycle" ELSE "")
   ELSE LET X == r.x
            badc(P(_, _)) == \E c \in DOMAIN X : ~P(c - 1, X[c]) IN
        IF badc(LAMBDA cc, x : SpanOk(r.inst, cc, x, Env(r.inst))) THEN "OneSpan"
